@@ -239,6 +239,8 @@ type HarnessResult struct {
 	Paths       int               `json:"paths"`
 	Forks       int               `json:"forks"`
 	Merges      int               `json:"merges"`
+	Steps       int               `json:"ssa_steps"`
+	Replays     int               `json:"native_replays"`
 	FeasQ       int               `json:"feasibility_queries"`
 	Queries     int               `json:"solver_queries"`
 	SolverS     float64           `json:"solver_s"`
@@ -401,6 +403,7 @@ func runChild(prop, tier, only, resultPath string, seed int) {
 		fmt.Fprintf(os.Stderr, "  [%s] symbolic execution done: %d paths, %d obligations, %d feasibility queries, %.1fs\n", only, len(outs), len(e.obligs), e.feasQ, time.Since(t0).Seconds())
 	}
 	res.Paths, res.Forks, res.Merges, res.FeasQ = e.paths, e.forks, e.merges, e.feasQ
+	res.Steps = e.totalSteps
 	res.Funcs = sortedKeys(e.funcsSeen)
 	res.Stubs = sortedKeys(e.stubsUsed)
 	res.Nondets = e.nondetTy
